@@ -207,3 +207,4 @@ PROPS["C16"] = {
     "assumptions": ["names of well-formed values contain name characters only (alphanumeric, _, -, > U+1F2FF): no whitespace, quotes or backslashes"],
 }
 PROPS["C11"]["mismatch_is_failure"] = "the README grammar (evaluated by the model interpreter) and the library disagree on kind or tree of this ASCII text"
+PROPS["C08"]["tables"] = ["T1", "T2", "T3", "T4", "T5"]
